@@ -127,7 +127,7 @@ func c11World(rc *kernel.RunCtx) {
 	t := rc.T
 	k := kernel.New(t, kernel.M1, 1<<30)
 	kernel.Active = k
-	kn := drawKnobs(t)
+	kn := drawKnobs(t, rc.Run)
 	kn.install(t)
 	defer simsync.SetPoolPolicy(nil, 0)
 	u := newUniverse(2)
